@@ -37,6 +37,18 @@ def run(ctx):
         h["case"] = {"tlvs": [], "hdr": "hang", "payload": "hang"}
     events = events + hangs
     ctx.notes["calls_that_never_returned"] = len(hangs)
+    def clamp(x):          # TLC integers are 32 bit: a channel count of 2.4e9 (product of shape dimensions) would wrap to a negative number
+        if isinstance(x, bool):
+            return x
+        if isinstance(x, int):
+            return max(-2147483647, min(2147483647, x))
+        if isinstance(x, list):
+            return [clamp(y) for y in x]
+        return x
+    for e in events:
+        for k in ("chaninfo", "frames", "length", "seq", "readvalue", "pretend", "ndata"):
+            if k in e:
+                e[k] = clamp(e[k])
     for e in events:       # JSON nulls (nil slices) are not representable in TLA+
         for k, v in list(e.items()):
             if v is None:
